@@ -156,7 +156,8 @@ def transform_product_info(section):
             return "other"
 
     def transform_file_info(mapping):
-        filenames = keyfilter(lambda k: not k.startswith("Cnt"), mapping)
+        # the roles follow the numbering of the keys (`...ProductFileName01`, ...), not the order of the lines
+        filenames = dict(sorted(keyfilter(lambda k: not k.startswith("Cnt"), mapping).items()))
         categorized = categorize_filenames(filenames)
 
         return Group(path="data_files", url=None, data={}, attrs=categorized)
